@@ -41,7 +41,7 @@ def Inv.reparse (inv : Inv) : Inv := { inv with head := inv.head.reparse }
 /-- `fs::create_dir_all(parent)` + creating a file at `cp` fails when an ancestor is a file or `cp`
     itself is a directory -/
 def physConflict (files : List (CPath × Digest)) (cp : CPath) : Bool :=
-  files.any (fun e => under e.1 cp || under cp e.1)
+  files.any (fun e => e.1.1 == cp.1 && (under e.1.2 cp.2 || under cp.2 e.1.2))
 
 /-- `stage_file_copy` / `stage_file_move` / `copy_staged_file`: a file with digest `d` at `cp` -/
 def putFile (o : Obj) (cp : CPath) (d : Digest) : Except Err Obj :=
@@ -93,6 +93,19 @@ def saveStaged (r : Repo) (id : Str) (o : Obj) : Repo := { r with staged := AL.i
 
 def touch (o : Obj) (now : Str) : Obj :=
   { o with inv := o.inv.setHeadVersion { o.inv.headVersion with vmeta := { o.inv.headVersion.vmeta with created := now } } }
+
+/-- the common frame of every staging operation that creates the staged version on demand
+    (`get_or_created_staged_inventory`, then a body working on the staged object, then — unless the
+    body bailed out early — `stage_inventory`).  The body returns its outcome, the staged object to
+    write back (`none`: nothing is written) and a payload. -/
+def withStaged {α : Type} (r : Repo) (id now : Str) (dflt : α)
+    (body : Obj → Except Err Unit × Option Obj × α) : Except Err Unit × Repo × α :=
+  match getOrCreateStaged r id now with
+  | .error e => (.error e, r, dflt)
+  | .ok (r1, o) =>
+    match body o with
+    | (res, some o', a) => (res, saveStaged r1 id o', a)
+    | (res, none, a) => (res, r1, a)
 
 /-! ### external copy / move (repo.rs:1098-1257, 1442-1457) -/
 
@@ -146,30 +159,26 @@ def extOne (c : ExtCtx) (o : Obj) (s : Src) : Obj × Nat × List Str :=
           | .ok o' => (o', acc.2.1, acc.2.2 ++ [name ++ '/' :: f.1])) (o, 0, [])
     else (o, 1, [])
 
-/-- result of an external copy/move: outcome, state afterwards, consumed sources (per source) -/
-structure ExtResult where
-  outcome : Except Err Unit
-  repo : Repo
-  consumed : List (List Str)
+/-- the body of `operate_on_external_source` after the staged inventory has been obtained -/
+def copyExternalBody (srcs : List Src) (dst : Str) (recursive : Bool) (now : Str) (o : Obj) :
+    Except Err Unit × Option Obj × List (List Str) :=
+  match parsePath dst with
+  | .error e => (.error e, none, [])
+  | .ok dstPath =>
+    let c : ExtCtx := { dst := dst, dstPath := dstPath, dstDirExists := o.inv.headVersion.isDir dstPath,
+                        srcIsMany := srcs.length > 1, dstHasSlash := dst.getLast? == some '/',
+                        recursive := recursive }
+    let (o', errs, consumed) := srcs.foldl (fun (acc : Obj × Nat × List (List Str)) s =>
+      let (o2, n, used) := extOne c acc.1 s
+      (o2, acc.2.1 + n, acc.2.2 ++ [used])) (o, 0, [])
+    (if errs > 0 then .error (.copyMove errs) else .ok (), some (touch o' now), consumed)
 
-/-- `operate_on_external_source` (copy and move differ only in what happens to the sources) -/
+/-- `operate_on_external_source` (copy and move differ only in what happens to the sources):
+    outcome, repository afterwards, consumed source files (per source) -/
 def copyExternal (r : Repo) (id : Str) (srcs : List Src) (dst : Str) (recursive : Bool) (now : Str) :
-    ExtResult :=
-  if srcs.isEmpty then ⟨.ok (), r, []⟩ else
-  match getOrCreateStaged r id now with
-  | .error e => ⟨.error e, r, []⟩
-  | .ok (r1, o) =>
-    match parsePath dst with
-    | .error e => ⟨.error e, r1, []⟩
-    | .ok dstPath =>
-      let c : ExtCtx := { dst := dst, dstPath := dstPath, dstDirExists := o.inv.headVersion.isDir dstPath,
-                          srcIsMany := srcs.length > 1, dstHasSlash := dst.getLast? == some '/',
-                          recursive := recursive }
-      let (o', errs, consumed) := srcs.foldl (fun (acc : Obj × Nat × List (List Str)) s =>
-        let (o2, n, used) := extOne c acc.1 s
-        (o2, acc.2.1 + n, acc.2.2 ++ [used])) (o, 0, [])
-      let r2 := saveStaged r1 id (touch o' now)
-      ⟨if errs > 0 then .error (.copyMove errs) else .ok (), r2, consumed⟩
+    Except Err Unit × Repo × List (List Str) :=
+  if srcs.isEmpty then (.ok (), r, []) else
+  withStaged r id now [] (copyExternalBody srcs dst recursive now)
 
 /-! ### internal copy / move (repo.rs:592-656, 689-747, 1262-1365, 1460-1510) -/
 
@@ -232,10 +241,9 @@ def resolveInternalMoves (head src : Version) (srcs : List Str) (dst : Str) (rec
         ({ a.1 with toMove := AL.insert a.1.toMove file lp }, true)) (acc1, m1)
       if m2 then acc2 else { acc2 with errors := acc2.errors + 1 }) { toMove := [], errors := 0 })
 
-/-- `lookup_staged_digest_and_content_path`: `some (d, cp)` when the source's bytes live in staging.
-    `cp` is what `content_path_for_digest(.., Head, Some(src))` answers; among several admissible
-    answers a staged one is reported only if it is the preferred (suffix) match or all are staged —
-    the ambiguous case is flagged by `ambiguous`. -/
+/-- `lookup_staged_digest_and_content_path` (repo.rs, after the fix): `some (d, cp)` exactly when the
+    source is read from the head version and its *own* content path is in the manifest with the
+    same digest — only then do the bytes live in staging. -/
 def lookupStaged (o : Obj) (srcV : Nat) (src : LPath) : Except Err (Option (Digest × CPath)) :=
   match o.inv.getVersion srcV with
   | none => .error .notFound
@@ -243,25 +251,8 @@ def lookupStaged (o : Obj) (srcV : Nat) (src : LPath) : Except Err (Option (Dige
     match v.lookup src with
     | none => .error .illegalState
     | some d =>
-      match o.inv.contentPathsForDigest d o.inv.head.number (some src) with
-      | .error e => .error e
-      | .ok cps =>
-        match cps.head? with
-        | none => .error .corrupt
-        | some cp => if o.inv.headPrefix.isPrefixOf cp then .ok (some (d, cp)) else .ok none
-
-/-- the implementation's answer depends on HashSet order: several admissible content paths, some
-    staged and some not -/
-def lookupAmbiguous (o : Obj) (srcV : Nat) (src : LPath) : Bool :=
-  match o.inv.getVersion srcV with
-  | none => false
-  | some v =>
-    match v.lookup src with
-    | none => false
-    | some d =>
-      match o.inv.contentPathsForDigest d o.inv.head.number (some src) with
-      | .error _ => false
-      | .ok cps => cps.any (fun cp => o.inv.headPrefix.isPrefixOf cp) && cps.any (fun cp => !o.inv.headPrefix.isPrefixOf cp)
+      if srcV == o.inv.head.number && AL.get o.inv.manifest (o.inv.newContentPath src) == some d
+      then .ok (some (d, o.inv.newContentPath src)) else .ok none
 
 def copyOneInternal (o : Obj) (srcV : Nat) (src dst : LPath) : Except Err Obj :=
   if srcV == o.inv.head.number && src == dst then .error .illegalState else
@@ -310,29 +301,30 @@ def pairsInteract (ps : List (LPath × LPath)) : Bool :=
   ps.any (fun a => ps.any (fun b =>
     a != b && (a.2 == b.2 || under a.2 b.2 || a.2 == b.1 || under a.2 b.1 || under b.1 a.2)))
 
+def internalBody (move : Bool) (srcVer : Option Nat) (srcs : List Str) (dst : Str) (recursive : Bool) (now : Str)
+    (o : Obj) : Except Err Unit × Option Obj × Unit :=
+  let srcV := srcVer.getD o.inv.head.number
+  match o.inv.getVersion srcV with
+  | none =>
+    -- `resolve_internal_moves` parses `dst` first, then `get_version(src_version_num)?`
+    match parsePath dst with
+    | .error e => (.error e, none, ())
+    | .ok _ => (.error .notFound, none, ())
+  | some sv =>
+    match resolveInternalMoves o.inv.headVersion sv srcs dst recursive with
+    | .error e => (.error e, none, ())
+    | .ok acc =>
+      let (o', errs) := acc.toMove.foldl (fun (a : Obj × Nat) (p : LPath × LPath) =>
+        match (if move then moveOneInternal a.1 p.1 p.2 else copyOneInternal a.1 srcV p.1 p.2) with
+        | .error _ => (a.1, a.2 + 1)
+        | .ok o2 => (o2, a.2)) (o, acc.errors)
+      (if errs > 0 then .error (.copyMove errs) else .ok (), some (touch o' now), ())
+
 def internalOp (move : Bool) (r : Repo) (id : Str) (srcVer : Option Nat) (srcs : List Str) (dst : Str)
-    (recursive : Bool) (now : Str) : Except Err Repo × Repo :=
-  if srcs.isEmpty then (.ok r, r) else
-  match getOrCreateStaged r id now with
-  | .error e => (.error e, r)
-  | .ok (r1, o) =>
-    let srcV := srcVer.getD o.inv.head.number
-    match o.inv.getVersion srcV with
-    | none =>
-      -- `resolve_internal_moves` parses `dst` first, then `get_version(src_version_num)?`
-      match parsePath dst with
-      | .error e => (.error e, r1)
-      | .ok _ => (.error .notFound, r1)
-    | some sv =>
-      match resolveInternalMoves o.inv.headVersion sv srcs dst recursive with
-      | .error e => (.error e, r1)
-      | .ok acc =>
-        let (o', errs) := acc.toMove.foldl (fun (a : Obj × Nat) (p : LPath × LPath) =>
-          match (if move then moveOneInternal a.1 p.1 p.2 else copyOneInternal a.1 srcV p.1 p.2) with
-          | .error _ => (a.1, a.2 + 1)
-          | .ok o2 => (o2, a.2)) (o, acc.errors)
-        let r2 := saveStaged r1 id (touch o' now)
-        if errs > 0 then (.error (.copyMove errs), r2) else (.ok r2, r2)
+    (recursive : Bool) (now : Str) : Except Err Unit × Repo :=
+  if srcs.isEmpty then (.ok (), r) else
+  let res := withStaged r id now () (internalBody move srcVer srcs dst recursive now)
+  (res.1, res.2.1)
 
 /-! ### rm / reset (repo.rs:751-883) -/
 
@@ -341,50 +333,50 @@ def removeOne (o : Obj) (p : LPath) : Obj :=
   | (inv, some cp) => rmFile { o with inv := inv } cp
   | (inv, none) => { o with inv := inv }
 
-def removeFiles (r : Repo) (id : Str) (paths : List Str) (recursive : Bool) (now : Str) : Except Err Repo × Repo :=
-  if paths.isEmpty then (.ok r, r) else
-  match getOrCreateStaged r id now with
-  | .error e => (.error e, r)
-  | .ok (r1, o) =>
-    let toRemove := (paths.flatMap (fun p => resolveGlob o.inv.headVersion p recursive)).eraseDups
-    let o' := toRemove.foldl removeOne o
-    let r2 := saveStaged r1 id o'
-    (.ok r2, r2)
+def removeBody (paths : List Str) (recursive : Bool) (o : Obj) : Except Err Unit × Option Obj × Unit :=
+  let toRemove := (paths.flatMap (fun p => resolveGlob o.inv.headVersion p recursive)).eraseDups
+  (.ok (), some (toRemove.foldl removeOne o), ())
 
-def resetPaths (r : Repo) (id : Str) (paths : List Str) (recursive : Bool) (now : Str) : Except Err Repo × Repo :=
-  if paths.isEmpty then (.ok r, r) else
-  match AL.get r.staged id with
-  | none => (.ok r, r)
-  | some o =>
-    let head := o.inv.headVersion
-    let prev? : Option (Version × Nat) :=
-      if o.inv.isNew then none
-      else (o.inv.getVersion (o.inv.head.number - 1)).map (fun v => (v, o.inv.head.number - 1))
-    let headPaths := (paths.flatMap (fun p => resolveGlob head p recursive)).eraseDups
-    let prevPaths := match prev? with
-      | some (pv, _) => (paths.flatMap (fun p => resolveGlob pv p recursive)).eraseDups
-      | none => []
-    let resetAdds := headPaths.filter (fun p => !prevPaths.contains p)
-    let o1 := resetAdds.foldl removeOne o
-    match prev? with
-    | none =>
-      let r2 := saveStaged r id (touch o1 now)
-      (.ok r2, r2)
-    | some (_, pn) =>
-      -- `copy_file_to_head(..)?` aborts the whole operation on a conflict, before `stage_inventory`
-      let res := prevPaths.foldl (fun (a : Except Err Obj) (p : LPath) =>
-        match a with
+def removeFiles (r : Repo) (id : Str) (paths : List Str) (recursive : Bool) (now : Str) : Except Err Unit × Repo :=
+  if paths.isEmpty then (.ok (), r) else
+  let res := withStaged r id now () (removeBody paths recursive)
+  (res.1, res.2.1)
+
+/-- the body of `reset`: `none` when a restore conflicts (`copy_file_to_head(..)?` aborts before
+    `stage_inventory`) -/
+def resetBody (paths : List Str) (recursive : Bool) (now : Str) (o : Obj) : Except Err Obj :=
+  let head := o.inv.headVersion
+  let prev? : Option (Version × Nat) :=
+    if o.inv.isNew then none
+    else (o.inv.getVersion (o.inv.head.number - 1)).map (fun v => (v, o.inv.head.number - 1))
+  let headPaths := (paths.flatMap (fun p => resolveGlob head p recursive)).eraseDups
+  let prevPaths := match prev? with
+    | some (pv, _) => (paths.flatMap (fun p => resolveGlob pv p recursive)).eraseDups
+    | none => []
+  let resetAdds := headPaths.filter (fun p => !prevPaths.contains p)
+  let o1 := resetAdds.foldl removeOne o
+  match prev? with
+  | none => .ok (touch o1 now)
+  | some (_, pn) =>
+    match prevPaths.foldl (fun (a : Except Err Obj) (p : LPath) =>
+      match a with
+      | .error e => .error e
+      | .ok o2 =>
+        let o3 := removeOne o2 p
+        match o3.inv.copyFileToHead pn p p with
         | .error e => .error e
-        | .ok o2 =>
-          let o3 := removeOne o2 p
-          match o3.inv.copyFileToHead pn p p with
-          | .error e => .error e
-          | .ok inv => .ok { o3 with inv := inv }) (.ok o1)
-      match res with
-      | .error e => (.error e, r)
-      | .ok o4 =>
-        let r2 := saveStaged r id (touch o4 now)
-        (.ok r2, r2)
+        | .ok inv => .ok { o3 with inv := inv }) (.ok o1) with
+    | .error e => .error e
+    | .ok o4 => .ok (touch o4 now)
+
+def resetPaths (r : Repo) (id : Str) (paths : List Str) (recursive : Bool) (now : Str) : Except Err Unit × Repo :=
+  if paths.isEmpty then (.ok (), r) else
+  match AL.get r.staged id with
+  | none => (.ok (), r)
+  | some o =>
+    match resetBody paths recursive now o with
+    | .error e => (.error e, r)
+    | .ok o' => (.ok (), saveStaged r id o')
 
 def resetAll (r : Repo) (id : Str) : Repo := { r with staged := AL.erase r.staged id }
 
@@ -393,22 +385,29 @@ def resetAll (r : Repo) (id : Str) : Repo := { r with staged := AL.erase r.stage
 /-- `rm_orphaned_files`: staged content files under the head's content directory that the manifest
     does not list are deleted -/
 def rmOrphans (o : Obj) : Obj :=
-  let pre := o.inv.headPrefix ++ o.inv.contentDir ++ ['/']
-  { o with files := o.files.filter (fun e => !(pre.isPrefixOf e.1) || AL.has o.inv.manifest e.1) }
+  let pre := o.inv.contentDir ++ ['/']
+  { o with files := o.files.filter (fun e => !(o.inv.inHead e.1 && pre.isPrefixOf e.1.2) || AL.has o.inv.manifest e.1) }
 
 /-- what the main repository holds after a successful install of the staged object `o` -/
 def installed (old : Option Obj) (o : Obj) : Obj :=
   { inv := o.inv, files := (old.map (·.files)).getD [] ++ o.files }
 
+/-- the staged object as `commit_inner` leaves it before installing: `dedup_head`, `update_meta`,
+    `stage_inventory(finalize)`, removal of duplicate and orphaned staged files (repo.rs:1003-1017) -/
+def prepareCommit (o : Obj) (m : Meta) (keep : Digest → List CPath) : Obj :=
+  let (inv1, removed) := o.inv.dedupHead keep
+  let inv2 := inv1.updateMeta m
+  rmOrphans (removed.foldl rmFile { o with inv := inv2 })
+
 def commitInner (r : Repo) (id : Str) (m : Meta) (keep : Digest → List CPath) (hasRoot : Bool) :
-    Except Err Repo × Repo :=
+    Except Err Unit × Repo :=
   match AL.get r.staged id with
   | none => (.error .general, r)
   | some o =>
-    let (inv1, removed) := o.inv.dedupHead keep
-    let inv2 := inv1.updateMeta m
-    let o1 := removed.foldl rmFile { o with inv := inv2 }
-    let o2 := rmOrphans o1
+    -- `keep` stands for the hash-order dependent choice inside `dedup_head`; a choice the code cannot
+    -- make is excluded here (this branch is not a behaviour of the implementation)
+    if !(o.inv.keepAdmissible keep) then (.error .panic, r) else
+    let o2 := prepareCommit o m keep
     let rStaged := saveStaged r id o2
     if o2.inv.isNew then
       -- write_new_object: the target must be determinable and must not exist
@@ -416,22 +415,24 @@ def commitInner (r : Repo) (id : Str) (m : Meta) (keep : Digest → List CPath) 
       else if AL.has r.main id then (.error .illegalState, rStaged)
       else
         let r' := { rStaged with main := AL.insert r.main id (installed none o2), staged := AL.erase rStaged.staged id }
-        (.ok r', r')
+        (.ok (), r')
     else
+      -- write_new_version: the object must exist with head = staged head - 1
       match AL.get r.main id with
       | none => (.error .notFound, rStaged)
       | some old =>
         if old.inv.head.number + 1 ≠ o2.inv.head.number then (.error .illegalState, rStaged)
         else
           let r' := { rStaged with main := AL.insert r.main id (installed (some old) o2), staged := AL.erase rStaged.staged id }
-          (.ok r', r')
+          (.ok (), r')
 
-def commit (r : Repo) (id : Str) (m : Meta) (keep : Digest → List CPath) (hasRoot : Bool) : Except Err Repo × Repo :=
+def commit (r : Repo) (id : Str) (m : Meta) (keep : Digest → List CPath) (hasRoot : Bool) : Except Err Unit × Repo :=
   commitInner r id m keep hasRoot
 
 /-- `upgrade_object` (repo.rs:909-955) -/
-def upgradeObject (r : Repo) (id : Str) (target : SpecV) (m : Meta) (keep : Digest → List CPath) (now : Str) :
-    Except Err Repo × Repo :=
+def upgradeObject (r : Repo) (id : Str) (target : SpecV) (m : Meta) (keep : Digest → List CPath)
+    (hasLayout : Bool) (now : Str) :
+    Except Err Unit × Repo :=
   match getOrCreateStaged r id now with
   | .error e => (.error e, r)
   | .ok (r1, o) =>
@@ -439,7 +440,7 @@ def upgradeObject (r : Repo) (id : Str) (target : SpecV) (m : Meta) (keep : Dige
     else if !(specLe target r.repoSpec) then (.error .illegalOp, r1)
     else
       let o' := { o with inv := { o.inv with spec := target } }
-      commitInner (saveStaged r1 id o') id m keep true
+      commitInner (saveStaged r1 id o') id m keep hasLayout
 
 def purge (r : Repo) (id : Str) : Repo :=
   { r with main := AL.erase r.main id, staged := AL.erase r.staged id }
@@ -457,35 +458,31 @@ def getObjectFile (r : Repo) (id : Str) (vn : Option Nat) (p : LPath) : Except E
       let ds := cps.map (fun cp => AL.get o.files cp)
       if ds.any Option.isNone then .error .io else .ok (ds.filterMap (fun x => x)).eraseDups
 
-/-- `get_staged_object_file` (after the fix: content in the main repository is located through a
-    committed version holding the same digest) -/
+/-- `get_staged_object_file` (after the fixes): a file with its own content path in the manifest is
+    read from staging; any other content is located through the newest committed version that
+    references the same digest -/
 def getStagedObjectFile (r : Repo) (id : Str) (p : LPath) : Except Err (List Digest) :=
   match AL.get r.staged id with
   | none => .error .notFound
   | some o =>
-    match o.inv.contentPathsForLogicalPath p o.inv.head.number with
-    | .error e => .error e
-    | .ok cps =>
-      let staged := cps.filter (fun cp => o.inv.headPrefix.isPrefixOf cp)
-      let other := cps.filter (fun cp => !o.inv.headPrefix.isPrefixOf cp)
-      let ds1 := staged.map (fun cp => AL.get o.files cp)
-      if ds1.any Option.isNone then .error .io
-      else if other.isEmpty then .ok (ds1.filterMap (fun x => x)).eraseDups
-      else
-        match o.inv.headVersion.lookup p with
-        | none => .error .notFound
-        | some d =>
-          -- newest committed version referencing the digest
+    match o.inv.headVersion.lookup p with
+    | none => .error .notFound
+    | some d =>
+      match o.inv.contentPathsForDigest d o.inv.head.number (some p) with
+      | .error e => .error e
+      | .ok _ =>
+        if AL.get o.inv.manifest (o.inv.newContentPath p) == some d then
+          match AL.get o.files (o.inv.newContentPath p) with
+          | none => .error .io
+          | some bytes => .ok [bytes]
+        else
           let cand := (List.range (o.inv.head.number - 1)).reverse.filterMap (fun i =>
             match o.inv.getVersion (i + 1) with
             | some v => (v.state.find? (fun e => e.2 == d)).map (fun e => (i + 1, e.1))
             | none => none)
           match cand.head? with
           | none => .error .notFound
-          | some (vn, q) =>
-            match getObjectFile r id (some vn) q with
-            | .error e => .error e
-            | .ok ds2 => .ok ((ds1.filterMap (fun x => x)) ++ ds2).eraseDups
+          | some (vn, q) => getObjectFile r id (some vn) q
 
 /-- the staged view: logical path ↦ digest -/
 def stagedView (r : Repo) (id : Str) : Option (List (LPath × Digest)) :=
